@@ -112,8 +112,11 @@ def RevOk (ns : List Name) : List Tok → Prop
   | [_] => True
   | b :: a :: r => (a.kind = .THASH → IsParamTok ns b) ∧ RevOk ns (a :: r)
 
-theorem pnames_setFtok (ps : List Param) (k : Nat) : pnames (setFtok ps k) = pnames ps := by
-  unfold pnames setFtok
+/-- name and `...`-ness of the parameters: what the flag updates of the body loop leave alone -/
+def pkeys (ps : List Param) : List (Name × Bool) := ps.map fun p => (p.name, p.fvar)
+
+theorem pkeys_setFtok (ps : List Param) (k : Nat) : pkeys (setFtok ps k) = pkeys ps := by
+  unfold pkeys setFtok
   induction ps generalizing k with
   | nil => simp
   | cons p r ih =>
@@ -121,14 +124,48 @@ theorem pnames_setFtok (ps : List Param) (k : Nat) : pnames (setFtok ps k) = pna
     | zero => simp
     | succ k => simp only [List.modify_succ_cons, List.map_cons, ih]
 
-theorem pnames_setFstr (ps : List Param) (k : Nat) : pnames (setFstr ps k) = pnames ps := by
-  unfold pnames setFstr
+theorem pkeys_setFstr (ps : List Param) (k : Nat) : pkeys (setFstr ps k) = pkeys ps := by
+  unfold pkeys setFstr
   induction ps generalizing k with
   | nil => simp
   | cons p r ih =>
     cases k with
     | zero => simp
     | succ k => simp only [List.modify_succ_cons, List.map_cons, ih]
+
+theorem pnames_of_pkeys {ps qs : List Param} (h : pkeys ps = pkeys qs) : pnames ps = pnames qs := by
+  have : pnames ps = (pkeys ps).map (·.1) := by simp [pnames, pkeys]
+  rw [this, h]; simp [pnames, pkeys]
+
+theorem pnames_setFtok (ps : List Param) (k : Nat) : pnames (setFtok ps k) = pnames ps :=
+  pnames_of_pkeys (pkeys_setFtok ps k)
+
+theorem pnames_setFstr (ps : List Param) (k : Nat) : pnames (setFstr ps k) = pnames ps :=
+  pnames_of_pkeys (pkeys_setFstr ps k)
+
+theorem namedNodup_of_pkeys {ps qs : List Param} (h : pkeys ps = pkeys qs) (hq : NamedNodup qs) : NamedNodup ps := by
+  have key : ∀ l : List Param, (l.filter (fun p => !p.fvar)).map (·.name) = ((pkeys l).filter (fun x => !x.2)).map (·.1) := by
+    intro l
+    induction l with
+    | nil => rfl
+    | cons p r ih =>
+      simp only [pkeys, List.map_cons, List.filter_cons] at ih ⊢
+      cases p.fvar <;> simp [ih]
+  unfold NamedNodup at *
+  rw [key, h, ← key]; exact hq
+
+theorem macrovarargs_eq (func : Bool) (ps : List Param) :
+    macrovarargs func ps = (func && ((ps.getLast?.map (·.fvar)).getD false)) := by
+  unfold macrovarargs
+  cases ps.getLast? <;> rfl
+
+theorem macrovarargs_of_pkeys {ps qs : List Param} (func : Bool) (h : pkeys ps = pkeys qs) :
+    macrovarargs func ps = macrovarargs func qs := by
+  have key : ∀ l : List Param, l.getLast?.map (·.fvar) = (pkeys l).getLast?.map (·.2) := by
+    intro l
+    simp only [pkeys, List.getLast?_map, Option.map_map]
+    rfl
+  rw [macrovarargs_eq, macrovarargs_eq, key, key, h]
 
 theorem macroparam_isParam {ps : List Param} {t : Tok} {k : Nat} (h : macroparam ps t = some k) :
     IsParamTok (pnames ps) t := by
@@ -147,20 +184,20 @@ theorem macroparam_isParam {ps : List Param} {t : Tok} {k : Nat} (h : macroparam
 
 theorem bodyStep_ok {func : Bool} {ps : List Param} {i : Option Nat} {prev : Kind} {t : Tok}
     {r : List Param × Option Nat} (h : bodyStep func ps i prev t = .ok r) :
-    pnames r.1 = pnames ps ∧ (func = true → prev = .THASH → IsParamTok (pnames ps) t) := by
+    pkeys r.1 = pkeys ps ∧ (func = true → prev = .THASH → IsParamTok (pnames ps) t) := by
   unfold bodyStep at h
   split at h
   · cases h
     rename_i hf
     exact ⟨rfl, fun hf' => absurd hf' hf⟩
-  · have key : ∀ ps1 : List Param, pnames ps1 = pnames ps →
+  · have key : ∀ ps1 : List Param, pkeys ps1 = pkeys ps →
         (if prev = Kind.THASH then
             if t.kind ≠ Kind.TIDENT then Except.error Err.hashIdent
             else match macroparam ps1 t with
               | none => Except.error Err.hashNotParam
               | some k => Except.ok (setFstr ps1 k, none)
           else Except.ok (ps1, macroparam ps1 t)) = Except.ok r →
-        pnames r.1 = pnames ps ∧ (func = true → prev = .THASH → IsParamTok (pnames ps) t) := by
+        pkeys r.1 = pkeys ps ∧ (func = true → prev = .THASH → IsParamTok (pnames ps) t) := by
       intro ps1 hn h
       split at h
       · split at h
@@ -170,19 +207,19 @@ theorem bodyStep_ok {func : Bool} {ps : List Param} {i : Option Nat} {prev : Kin
           · rename_i k hk
             cases h
             have := macroparam_isParam hk
-            rw [hn] at this
-            exact ⟨by simp only [pnames_setFstr, hn], fun _ _ => this⟩
+            rw [pnames_of_pkeys hn] at this
+            exact ⟨by simp only [pkeys_setFstr, hn], fun _ _ => this⟩
       · rename_i hprev
         cases h
         exact ⟨hn, fun _ hp => absurd hp hprev⟩
     cases i with
     | none => exact key ps rfl h
-    | some k => exact key (setFtok ps k) (pnames_setFtok ps k) h
+    | some k => exact key (setFtok ps k) (pkeys_setFtok ps k) h
 
 theorem bodyLoop_hash (va : Bool) (ps : List Param) (i : Option Nat) (t : Tok) (acc raw : List Tok) :
     ∀ ps' body e rest, bodyLoop true va ps i t acc raw = .ok (ps', body, e, rest) →
       RevOk (pnames ps) (t :: acc) →
-      pnames ps' = pnames ps ∧ RevOk (pnames ps) (e :: body.reverse) ∧ endTok e := by
+      pkeys ps' = pkeys ps ∧ RevOk (pnames ps) (e :: body.reverse) ∧ endTok e := by
   fun_induction bodyLoop true va ps i t acc raw
   all_goals intro ps' body e rest h hacc
   all_goals try (cases h; done)
@@ -198,8 +235,8 @@ theorem bodyLoop_hash (va : Bool) (ps : List Param) (i : Option Nat) (t : Tok) (
     exact ⟨fun hk => this.2 rfl hk, hacc⟩
   case case8 hne hhh hva t' r' hn r hr ih =>
     have hs := bodyStep_ok hr
-    have := ih ps' body e rest h (by rw [hs.1]; exact ⟨fun hk => hs.2 rfl hk, hacc⟩)
-    rw [hs.1] at this
+    have := ih ps' body e rest h (by rw [pnames_of_pkeys hs.1]; exact ⟨fun hk => hs.2 rfl hk, hacc⟩)
+    rw [pnames_of_pkeys hs.1, hs.1] at this
     exact this
 
 /-- the last token of an accepted function-like replacement list is not `#` -/
@@ -208,3 +245,84 @@ theorem revOk_last_not_hash {ns : List Name} {e x : Tok} {r : List Tok} (h : Rev
   intro hx
   have := (h.1 hx).1
   rcases he with he | he <;> rw [he] at this <;> cases this
+
+theorem bodyLoop_obj (va : Bool) (ps : List Param) (i : Option Nat) (t : Tok) (acc raw : List Tok) :
+    ∀ ps' body e rest, bodyLoop false va ps i t acc raw = .ok (ps', body, e, rest) → ps' = ps := by
+  fun_induction bodyLoop false va ps i t acc raw
+  all_goals intro ps' body e rest h
+  all_goals try (cases h; done)
+  case case1 => cases h; rfl
+  case case5 hne hhh hva r hr =>
+    cases h
+    simp [bodyStep] at hr
+    rw [← hr]
+  case case8 hne hhh hva t' r' hn r hr ih =>
+    have := ih ps' body e rest h
+    simp [bodyStep] at hr
+    rw [this, ← hr]
+
+/-! ## `define` as a whole -/
+
+/-- what every accepted definition satisfies (6.10.3p5, p6, 6.10.3.2p1; `##` is outside the
+implemented subset) -/
+structure Macro.WF (m : Macro) : Prop where
+  noHashHash : ∀ t ∈ m.body, t.kind ≠ .THASHHASH
+  vaOnlyVariadic : macrovarargs m.func m.params = false → ∀ t ∈ m.body, ¬ isVa t
+  distinct : NamedNodup m.params
+  hashParam : m.func = true → ∃ e, endTok e ∧ RevOk (pnames m.params) (e :: m.body.reverse)
+  objNoParams : m.func = false → m.params = []
+
+theorem macroget_macroset (ms : List Macro) (m : Macro) : macroget (macroset ms m) m.name = some m := by
+  simp [macroget, macroset]
+
+theorem revOk_single (ns : List Name) (t : Tok) : RevOk ns [t] := trivial
+
+/-- Every definition `define` accepts is well formed, and it is the one found under its name
+afterwards. -/
+theorem define_wf {st st' : St} (h : define st = .ok st') :
+    ∃ m, macroget st'.macros (st.tok.lit.getD []) = some m ∧ m.name = st.tok.lit.getD [] ∧ m.WF ∧ m.hide = false := by
+  unfold define at h
+  split at h
+  · cases h
+  · split at h
+    · cases h
+    · rename_i t st1 hscan
+      simp only at h
+      split at h
+      · cases h
+      · rename_i func ps t1 st2 hhd
+        split at h
+        · cases h
+        · rename_i ps' body endt raw hbody
+          have hwf : ({ func := func, name := st.tok.lit.getD [], hide := false, params := ps', args := [], body := body } : Macro).WF := by
+            have hs := bodyLoop_sound func (macrovarargs func ps) ps (macroparam ps t1) t1 [] st2.raw ps' body endt raw hbody
+              (by intro x hx; cases hx)
+            split at hhd
+            · -- function-like
+              split at hhd
+              · cases hhd
+              · rename_i ps0 raw0 hpl
+                split at hhd
+                · cases hhd
+                · rename_i t1' st2' hsc2
+                  cases hhd
+                  have hh := bodyLoop_hash (macrovarargs true ps) ps (macroparam ps t1) t1 [] st2.raw ps' body endt raw hbody
+                    (revOk_single _ _)
+                  have hnd := paramLoop_distinct _ _ _ hpl
+                  exact ⟨fun x hx => (hs x hx).1,
+                    fun hv x hx => (hs x hx).2 (by rw [← macrovarargs_of_pkeys true hh.1]; exact hv),
+                    namedNodup_of_pkeys hh.1 hnd,
+                    (fun _ => ⟨endt, hh.2.2, by rw [pnames_of_pkeys hh.1]; exact hh.2.1⟩),
+                    (fun hf => by cases hf)⟩
+            · cases hhd
+              have hp := bodyLoop_obj _ _ _ _ _ _ ps' body endt raw hbody
+              subst hp
+              exact ⟨fun x hx => (hs x hx).1, fun hv x hx => (hs x hx).2 hv, (by simp [NamedNodup]),
+                (fun hf => by cases hf), (fun _ => rfl)⟩
+          split at h
+          · split at h
+            · cases h
+              exact ⟨_, macroget_macroset _ _, rfl, hwf, rfl⟩
+            · cases h
+          · cases h
+            exact ⟨_, macroget_macroset _ _, rfl, hwf, rfl⟩
